@@ -25,6 +25,24 @@
 //! (DX / VK / VK+buffer-address / MSL; no-pipeline mode or a compute pipeline with `DefaultBindGroup`): the hook
 //! trace inside `compile` equals the one of the direct call, and `metadata.bind_groups` shows the same numbers.
 //!
+//! Spelled spaces (flat enumerations, run before the BFS, same oracle `check_history`): the BFS writes every letter in
+//! one fixed way (`decl_text`), one declaration per statement. The allocator only sees `lang_slot.set` /
+//! `lang_binding.set`, which the type checker assembles from attributes and register annotations, so the property
+//! ("resources without an explicit group go to the default group", every range in its own group) also depends on
+//! how a declaration is written. Two further dimensions are therefore enumerated (types `Attr`, `Reg`, `Sp`):
+//!   * `spelled_single_declarations`: one declaration (alone; thorough also between two plain textures) x kind x
+//!     array x explicit group x every sequence of up to 2 (thorough: 3) attributes out of
+//!     {`[[rssl::bind_group(G)]]`, `[[vk::binding(I)]]`, `[[vk::binding(I, G)]]`} in every order x register annotation
+//!     {none, `register(spaceG)`, `register(tI)`, `register(tI, spaceG)`} (also on cbuffer blocks);
+//!   * `spelled_multi_declarator_statements`: one statement with 2..3 (thorough: ..4) declarators of one object kind,
+//!     every declarator with its own array length / explicit group / register annotation, optionally under a statement
+//!     attribute.
+//! Only spellings that say exactly what the letters say are used (`spelling_ok`: every annotation of a declaration
+//! that names a group names the same one; no group named for a letter without explicit group), so the expected
+//! placement is the one of the letters and no priority rule between conflicting annotations is assumed. The
+//! language binding index I never influences api slots (doc comment of `assign_api_bindings`; the property hands
+//! out ranges from zero in declaration order).
+//!
 //! Violation signatures (classes):
 //!   alloc|range-start|<class>            range does not start at the group's previous counter
 //!   alloc|range-length|<class>|<config>  range length != array_len × (2 if metal raw/structured/address else 1)
@@ -229,6 +247,239 @@ fn decl_text(l: Letter, i: usize) -> String {
     s
 }
 
+// -------------------------------------------------------------------------------------------
+// spellings: the same letter (kind, array length, explicit group) written with the other annotation syntaxes the
+// language offers, and several declarators in one declaration statement. The oracle never looks at the spelling:
+// a spelled history must be allocated exactly like the history of its letters.
+
+/// attribute in front of a declaration statement / cbuffer block
+#[derive(Copy, Clone, PartialEq, Eq, Hash, Debug, PartialOrd, Ord)]
+pub enum Attr {
+    /// `[[rssl::bind_group(G)]]`
+    Group,
+    /// `[[vk::binding(I)]]`: language binding index only
+    Index,
+    /// `[[vk::binding(I, G)]]`
+    IndexGroup,
+}
+
+/// register annotation behind a declarator / cbuffer name
+#[derive(Copy, Clone, PartialEq, Eq, Hash, Debug, PartialOrd, Ord, Default)]
+pub enum Reg {
+    #[default]
+    None,
+    /// `: register(spaceG)`
+    Space,
+    /// `: register(tI)`: language register index only (register letter of the kind)
+    Slot,
+    /// `: register(tI, spaceG)`
+    SlotSpace,
+}
+
+/// How one declaration of a history is written. G is always the explicit group of the letter (every annotation of
+/// one declaration that names a group names the same one, so the explicit group is unambiguous); I is a language
+/// binding index (5 + position), which by the documentation of assign_api_bindings has no influence on api slots.
+#[derive(Clone, PartialEq, Eq, Hash, Debug, Default)]
+pub struct Sp {
+    /// attributes of the statement, in source order (empty for a joined declarator: it shares those of the head)
+    attrs: Vec<Attr>,
+    reg: Reg,
+    /// a further declarator of the previous declaration's statement (`Texture2D a, b;`)
+    joined: bool,
+}
+
+const ATTRS: [Attr; 3] = [Attr::Group, Attr::Index, Attr::IndexGroup];
+const REGS: [Reg; 4] = [Reg::None, Reg::Space, Reg::Slot, Reg::SlotSpace];
+
+impl Attr {
+    fn name(self) -> &'static str {
+        match self {
+            Attr::Group => "bind_group(G)",
+            Attr::Index => "vk::binding(I)",
+            Attr::IndexGroup => "vk::binding(I,G)",
+        }
+    }
+    fn names_group(self) -> bool {
+        self != Attr::Index
+    }
+}
+
+impl Reg {
+    fn name(self) -> &'static str {
+        match self {
+            Reg::None => "none",
+            Reg::Space => "register(spaceG)",
+            Reg::Slot => "register(tI)",
+            Reg::SlotSpace => "register(tI,spaceG)",
+        }
+    }
+    fn names_group(self) -> bool {
+        matches!(self, Reg::Space | Reg::SlotSpace)
+    }
+}
+
+fn sp_name(sp: &Sp) -> String {
+    format!("attrs=[{}] reg={} {}", sp.attrs.iter().map(|a| a.name()).collect::<Vec<_>>().join(" "), sp.reg.name(), if sp.joined { "joined" } else { "own-statement" })
+}
+
+fn parse_sp(s: &str) -> Option<Sp> {
+    let rest = s.trim().strip_prefix("attrs=[")?;
+    let close = rest.find(']')?;
+    let mut attrs = Vec::new();
+    for w in rest[..close].split_whitespace() {
+        attrs.push(ATTRS.iter().copied().find(|a| a.name() == w)?);
+    }
+    let rest = rest[close + 1..].trim().strip_prefix("reg=")?;
+    let mut it = rest.split_whitespace();
+    let reg = it.next()?;
+    let reg = REGS.iter().copied().find(|r| r.name() == reg)?;
+    let joined = match it.next()? {
+        "joined" => true,
+        "own-statement" => false,
+        _ => return None,
+    };
+    Some(Sp { attrs, reg, joined })
+}
+
+/// index of the head declarator of the statement declaration `i` belongs to
+fn sp_head(sps: &[Sp], i: usize) -> usize {
+    let mut h = i;
+    while h > 0 && sps[h].joined {
+        h -= 1;
+    }
+    h
+}
+
+/// A spelling fits a history when it says exactly what the letters say: a declaration whose letter has no explicit
+/// group is annotated with no group anywhere, one with explicit group G names G at least once (own register
+/// annotation or an attribute of its statement) and nothing names another group; joined declarators have the kind
+/// of their head (one type per statement).
+fn spelling_ok(hist: &[Letter], sps: &[Sp]) -> Result<(), String> {
+    if hist.len() != sps.len() {
+        return Err("one spelling per letter expected".into());
+    }
+    for i in 0..hist.len() {
+        let sp = &sps[i];
+        if sp.joined {
+            if i == 0 {
+                return Err("the first declaration cannot be joined".into());
+            }
+            if !sp.attrs.is_empty() {
+                return Err(format!("declaration {}: a joined declarator has no attributes of its own", i));
+            }
+            if hist[i] / 16 != hist[i - 1] / 16 || l_kind(hist[i]).form == Form::Cbuffer {
+                return Err(format!("declaration {}: joined declarators share the type of their statement", i));
+            }
+        }
+        let h = sp_head(sps, i);
+        let attr_group = sps[h].attrs.iter().any(|a| a.names_group());
+        if attr_group && (l_group(hist[h]).is_none() || l_group(hist[i]) != l_group(hist[h])) {
+            return Err(format!("declaration {}: the attributes of its statement name another group than its letter", i));
+        }
+        match l_group(hist[i]) {
+            None => {
+                if attr_group || sp.reg.names_group() {
+                    return Err(format!("declaration {}: letter without explicit group spelled with a group", i));
+                }
+            }
+            Some(_) => {
+                if !attr_group && !sp.reg.names_group() {
+                    return Err(format!("declaration {}: letter with explicit group spelled without one", i));
+                }
+            }
+        }
+    }
+    Ok(())
+}
+
+fn reg_char(kind: &Kind) -> char {
+    match kind.class {
+        Class::CbufferBlock | Class::ConstantBufferT => 'b',
+        Class::Sampler | Class::StaticSampler => 's',
+        _ => {
+            if kind.name.starts_with("RW") {
+                'u'
+            } else {
+                't'
+            }
+        }
+    }
+}
+
+fn lang_index(i: usize) -> usize {
+    5 + i
+}
+
+fn attrs_text(l: Letter, i: usize, sp: &Sp) -> String {
+    let g = l_group(l).unwrap_or(0);
+    let mut s = String::new();
+    for a in &sp.attrs {
+        match a {
+            Attr::Group => s.push_str(&format!("[[rssl::bind_group({})]] ", g)),
+            Attr::Index => s.push_str(&format!("[[vk::binding({})]] ", lang_index(i))),
+            Attr::IndexGroup => s.push_str(&format!("[[vk::binding({}, {})]] ", lang_index(i), g)),
+        }
+    }
+    s
+}
+
+fn reg_text(l: Letter, i: usize, sp: &Sp) -> String {
+    let g = l_group(l).unwrap_or(0);
+    let c = reg_char(l_kind(l));
+    match sp.reg {
+        Reg::None => String::new(),
+        Reg::Space => format!(" : register(space{})", g),
+        Reg::Slot => format!(" : register({}{})", c, lang_index(i)),
+        Reg::SlotSpace => format!(" : register({}{}, space{})", c, lang_index(i), g),
+    }
+}
+
+/// `name[n] : register(..) = init` of declaration `i`
+fn declarator_text(l: Letter, i: usize, sp: &Sp) -> String {
+    let kind = l_kind(l);
+    let arr = match l_array(l) {
+        Some(n) => format!("[{}]", n),
+        None => String::new(),
+    };
+    let init = if kind.form == Form::StaticSampler { " = StaticSampler { Filter = MIN_MAG_MIP_LINEAR; AddressU = Clamp; }" } else { "" };
+    format!("{}{}{}{}", decl_name(i), arr, reg_text(l, i, sp), init)
+}
+
+/// the statement that starts at declaration `i` (with all declarators joined to it); returns the next position
+fn statement_text(hist: &[Letter], sps: &[Sp], i: usize) -> (String, usize) {
+    let l = hist[i];
+    let kind = l_kind(l);
+    let mut s = attrs_text(l, i, &sps[i]);
+    if kind.form == Form::Cbuffer {
+        let name = decl_name(i);
+        s.push_str(&format!("cbuffer {}{} {{ float4 {}_m; }}", name, reg_text(l, i, &sps[i]), name));
+        return (s, i + 1);
+    }
+    s.push_str(kind.ty);
+    s.push(' ');
+    s.push_str(&declarator_text(l, i, &sps[i]));
+    let mut j = i + 1;
+    while j < hist.len() && sps[j].joined {
+        s.push_str(", ");
+        s.push_str(&declarator_text(hist[j], j, &sps[j]));
+        j += 1;
+    }
+    s.push(';');
+    (s, j)
+}
+
+/// text shown for declaration `i` in violation details
+fn decl_show(hist: &[Letter], spell: Option<&[Sp]>, i: usize) -> String {
+    match spell {
+        None => decl_text(hist[i], i),
+        Some(sps) => {
+            let h = sp_head(sps, i);
+            let (text, _) = statement_text(hist, sps, h);
+            if text.contains(',') && (h != i || (i + 1 < sps.len() && sps[i + 1].joined)) { format!("{} in `{}`", decl_name(i), text) } else { text }
+        }
+    }
+}
+
 /// default bind group mode: no-pipeline mode (default group 0 by definition) or a compute pipeline with
 /// `DefaultBindGroup = n`
 #[derive(Copy, Clone, PartialEq, Eq, Hash, Debug, PartialOrd, Ord)]
@@ -258,10 +509,28 @@ impl Dg {
 }
 
 pub fn render(hist: &[Letter], dg: Dg) -> String {
+    render_sp(hist, None, dg)
+}
+
+/// `spell` = None: the default spelling of `decl_text`; otherwise one `Sp` per letter (must satisfy `spelling_ok`)
+pub fn render_sp(hist: &[Letter], spell: Option<&[Sp]>, dg: Dg) -> String {
     let mut s = String::from("struct S { float4 v; };\n");
-    for (i, l) in hist.iter().enumerate() {
-        s.push_str(&decl_text(*l, i));
-        s.push('\n');
+    match spell {
+        None => {
+            for (i, l) in hist.iter().enumerate() {
+                s.push_str(&decl_text(*l, i));
+                s.push('\n');
+            }
+        }
+        Some(sps) => {
+            let mut i = 0;
+            while i < hist.len() {
+                let (text, next) = statement_text(hist, sps, i);
+                s.push_str(&text);
+                s.push('\n');
+                i = next;
+            }
+        }
     }
     s.push_str("[numthreads(1, 1, 1)]\nvoid CSMAIN() {}\n");
     if let Dg::Pipe(n) = dg {
@@ -440,18 +709,36 @@ pub enum Checked {
     /// keys of the states after every letter of the history
     Live(Vec<Key>),
     Violated,
+    /// the type checker rejected the source and the caller said that this is acceptable (`Opt::reject_ok`)
+    Rejected,
 }
 
-fn viol(sig: String, detail: String, hist: &[Letter], cfg: Cfg, dg: Dg, e2e: bool) -> Violation {
+/// options of `check_history`
+#[derive(Copy, Clone, Default)]
+pub struct Opt<'a> {
+    /// the keys stored when the prefix was explored (prefix determinism)
+    prefix: Option<&'a [Key]>,
+    /// also cross-check through `rssl::compile`
+    e2e: bool,
+    /// how the letters are written (None: default spelling)
+    spell: Option<&'a [Sp]>,
+    /// a rejection by the type checker is counted, not reported (spellings of non-object declarations)
+    reject_ok: bool,
+}
+
+fn viol(sig: String, detail: String, hist: &[Letter], cfg: Cfg, dg: Dg, opt: &Opt) -> Violation {
     let mut replay = String::from("kind: history\n");
     replay.push_str(&format!("config: {}\n", cfg.name()));
     replay.push_str(&format!("default_group: {}\n", dg.name()));
-    replay.push_str(&format!("e2e: {}\n", if e2e { "yes" } else { "no" }));
-    for l in hist {
+    replay.push_str(&format!("e2e: {}\n", if opt.e2e { "yes" } else { "no" }));
+    for (i, l) in hist.iter().enumerate() {
         replay.push_str(&format!("letter: {}\n", letter_name(*l)));
+        if let Some(sps) = opt.spell {
+            replay.push_str(&format!("spell: {}\n", sp_name(&sps[i])));
+        }
     }
     replay.push_str("source:\n");
-    replay.push_str(&render(hist, dg));
+    replay.push_str(&render_sp(hist, opt.spell, dg));
     Violation { signature: sig, detail, replay }
 }
 
@@ -459,31 +746,42 @@ struct Cx<'a> {
     hist: &'a [Letter],
     cfg: Cfg,
     dg: Dg,
-    e2e: bool,
+    opt: Opt<'a>,
 }
 
 impl<'a> Cx<'a> {
     fn v(&self, acc: &mut Acc, sig: String, detail: String) {
-        let detail = format!("[{} / {}] history [{}]: {}", self.cfg.name(), self.dg.name(), hist_str(self.hist), detail);
-        acc.violation(viol(sig, detail, self.hist, self.cfg, self.dg, self.e2e));
+        let spelled = if self.opt.spell.is_some() { " (spelled, see source)" } else { "" };
+        let detail = format!("[{} / {}] history [{}]{}: {}", self.cfg.name(), self.dg.name(), hist_str(self.hist), spelled, detail);
+        acc.violation(viol(sig, detail, self.hist, self.cfg, self.dg, &self.opt));
     }
 }
 
 /// Check one history with the real allocator against invariants (1)–(7).
-/// `prefix`: the keys stored when the prefix was explored (prefix determinism).
-/// `e2e`: also cross-check through `rssl::compile`.
-pub fn check_history(hist: &[Letter], cfg: Cfg, dg: Dg, acc: &mut Acc, prefix: Option<&[Key]>, e2e: bool) -> Checked {
+pub fn check_history(hist: &[Letter], cfg: Cfg, dg: Dg, acc: &mut Acc, opt: Opt) -> Checked {
     acc.evals += 1;
-    let cx = Cx { hist, cfg, dg, e2e };
+    let cx = Cx { hist, cfg, dg, opt };
+    let (prefix, e2e) = (opt.prefix, opt.e2e);
     let par = par_of(cfg);
     let default_group = dg.default_group();
-    let text = render(hist, dg);
+    let text = render_sp(hist, opt.spell, dg);
     let d = match run_direct(&text, cfg, dg) {
         Err(p) => {
             cx.v(acc, p.signature(), format!("type_check / assign_api_bindings panicked: {}", p.message));
             return Checked::Violated;
         }
         Ok(Err(e)) => {
+            if opt.reject_ok {
+                let k = hist.iter().map(|l| l_kind(*l)).find(|k| matches!(k.form, Form::StaticSampler | Form::Numeric)).map(|k| k.name).unwrap_or("?");
+                acc.count(&format!("spelling_rejected|{}|{}", k, err_class(&e)));
+                return Checked::Rejected;
+            }
+            if opt.spell.is_some() {
+                // the property says how accepted declarations are allocated, not which annotation spellings must be
+                // accepted: a rejected spelling is outside its domain; counted so that vacuity stays visible
+                acc.count(&format!("spelled_history_rejected(not compared)|{}", err_class(&e)));
+                return Checked::Rejected;
+            }
             cx.v(acc, "machinery|history-rejected".into(), format!("a history of individually accepted declarations was rejected: {}", one_line(&e, 200)));
             return Checked::Violated;
         }
@@ -518,7 +816,7 @@ pub fn check_history(hist: &[Letter], cfg: Cfg, dg: Dg, acc: &mut Acc, prefix: O
         let cur = &d.trace[obs.root_index];
         let exp = model.step(*l, par, default_group);
         expects.push(exp);
-        let what = format!("declaration {} `{}`", i, decl_text(*l, i));
+        let what = format!("declaration {} `{}`", i, decl_show(hist, opt.spell, i));
         if obs.name != decl_name(i) {
             cx.v(acc, "machinery|trace-shape".into(), format!("{} found as {:?}", what, obs.name));
             return Checked::Violated;
@@ -864,9 +1162,9 @@ fn locate(offsets: &[u64], idx: u64) -> (usize, u64) {
     (r, idx - offsets[r])
 }
 
-fn bfs_all(ctx: &Ctx, rep: &mut Report, runs: &mut Vec<Run>, full_upto: usize, max_depth: usize, e2e_all_depth: usize) {
+fn bfs_all(ctx: &Ctx, rep: &mut Report, runs: &mut Vec<Run>, full_upto: usize, max_depth: usize, e2e_all_depth: usize, index_start: u64) {
     // violations are ordered by a case index that grows with the depth, so the reported example is the shortest
-    let mut index_base = 0u64;
+    let mut index_base = index_start;
     for depth in 1..=max_depth {
         if runs.iter().all(|r| r.frontier.is_empty()) {
             break;
@@ -901,7 +1199,7 @@ fn bfs_all(ctx: &Ctx, rep: &mut Report, runs: &mut Vec<Run>, full_upto: usize, m
             let mut h2 = h.clone();
             h2.push(a);
             acc.count(&r.tag);
-            if let Checked::Live(keys) = check_history(&h2, r.cfg, r.dg, acc, Some(ks), e2e_inline) {
+            if let Checked::Live(keys) = check_history(&h2, r.cfg, r.dg, acc, Opt { prefix: Some(ks), e2e: e2e_inline, ..Opt::default() }) {
                 results[ri].lock().unwrap().push((h2, keys));
             }
         });
@@ -959,7 +1257,7 @@ fn bfs_all(ctx: &Ctx, rep: &mut Report, runs: &mut Vec<Run>, full_upto: usize, m
                 let mut scratch = Acc::default();
                 scratch.cur_index = index_base + idx;
                 // re-run with the end-to-end part on; the direct part was validated in the transition pass
-                let _ = check_history(h, r.cfg, r.dg, &mut scratch, Some(ks), true);
+                let _ = check_history(h, r.cfg, r.dg, &mut scratch, Opt { prefix: Some(ks), e2e: true, ..Opt::default() });
                 scratch.evals = 0;
                 acc.merge(scratch);
             });
@@ -972,6 +1270,192 @@ fn bfs_all(ctx: &Ctx, rep: &mut Report, runs: &mut Vec<Run>, full_upto: usize, m
             index_base += total;
         }
     }
+}
+
+// -------------------------------------------------------------------------------------------
+// spelled spaces (flat enumerations; same oracle as the BFS)
+
+struct SpCase {
+    hist: Vec<Letter>,
+    sps: Vec<Sp>,
+    reject_ok: bool,
+}
+
+fn kind_ix(name: &str) -> u16 {
+    KINDS.iter().position(|k| k.name == name).expect("kind") as u16
+}
+
+fn mk_letter(kind: u16, arr: u16, grp: u16) -> Letter {
+    kind * 16 + arr * 4 + grp
+}
+
+/// all attribute sequences of length 0..=max_len, shortest first
+fn attr_seqs(max_len: usize) -> Vec<Vec<Attr>> {
+    let mut out: Vec<Vec<Attr>> = vec![vec![]];
+    let mut level: Vec<Vec<Attr>> = vec![vec![]];
+    for _ in 0..max_len {
+        let mut next = Vec::new();
+        for s in &level {
+            for a in ATTRS {
+                let mut t = s.clone();
+                t.push(a);
+                next.push(t);
+            }
+        }
+        out.extend(next.iter().cloned());
+        level = next;
+    }
+    out
+}
+
+/// put a plain default-group Texture2D in front of and behind the case (its ranges must shift / stay accordingly)
+fn between_textures(hist: Vec<Letter>, sps: Vec<Sp>) -> (Vec<Letter>, Vec<Sp>) {
+    let tex = mk_letter(kind_ix("Texture2D"), 0, 0);
+    let mut h = vec![tex];
+    h.extend(hist);
+    h.push(tex);
+    let mut p = vec![Sp::default()];
+    p.extend(sps);
+    p.push(Sp::default());
+    (h, p)
+}
+
+/// one declaration in its own statement: kinds x array lengths x explicit group x every attribute sequence of
+/// `seqs` x every register annotation form, as far as the spelling says what the letter says (`spelling_ok`)
+fn single_cases(kinds: &[u16], arrs: &[u16], seqs: &[Vec<Attr>], between: bool, out: &mut Vec<SpCase>) {
+    for seq in seqs {
+        for reg in REGS {
+            for grp in 0..4u16 {
+                for arr in arrs {
+                    for kind in kinds {
+                        let form = KINDS[*kind as usize].form;
+                        if form == Form::Cbuffer && *arr != 0 {
+                            continue;
+                        }
+                        let hist = vec![mk_letter(*kind, *arr, grp)];
+                        let sps = vec![Sp { attrs: seq.clone(), reg, joined: false }];
+                        if spelling_ok(&hist, &sps).is_err() {
+                            continue;
+                        }
+                        // register annotations are refused on non-object types and binding indices on static samplers
+                        let reject_ok = matches!(form, Form::StaticSampler | Form::Numeric);
+                        let (hist, sps) = if between { between_textures(hist, sps) } else { (hist, sps) };
+                        out.push(SpCase { hist, sps, reject_ok });
+                    }
+                }
+            }
+        }
+    }
+}
+
+/// one statement with `n` declarators of one object kind: statement attributes `attr_opts` x per declarator
+/// (array length of `arrs`) x (explicit group none,0,1,2) x (register annotation of `regs`), as far as `spelling_ok`
+fn statement_cases(kinds: &[u16], n: usize, arrs: &[u16], regs: &[Reg], attr_opts: &[Vec<Attr>], between: bool, out: &mut Vec<SpCase>) {
+    // per-declarator choices, simplest first
+    let mut choices: Vec<(u16, u16, Reg)> = Vec::new();
+    for reg in regs {
+        for grp in 0..4u16 {
+            for arr in arrs {
+                choices.push((*arr, grp, *reg));
+            }
+        }
+    }
+    let radices: Vec<u64> = vec![choices.len() as u64; n];
+    let total: u64 = radices.iter().product();
+    let mut digits = Vec::new();
+    for attrs in attr_opts {
+        for idx in 0..total {
+            crate::util::decode(idx, &radices, &mut digits);
+            for kind in kinds {
+                assert!(KINDS[*kind as usize].form == Form::Object);
+                let mut hist = Vec::with_capacity(n);
+                let mut sps = Vec::with_capacity(n);
+                for (j, d) in digits.iter().enumerate() {
+                    let (arr, grp, reg) = choices[*d as usize];
+                    hist.push(mk_letter(*kind, arr, grp));
+                    sps.push(Sp { attrs: if j == 0 { attrs.clone() } else { vec![] }, reg, joined: j > 0 });
+                }
+                if spelling_ok(&hist, &sps).is_err() {
+                    continue;
+                }
+                let (hist, sps) = if between { between_textures(hist, sps) } else { (hist, sps) };
+                out.push(SpCase { hist, sps, reject_ok: false });
+            }
+        }
+    }
+}
+
+fn run_spelled(ctx: &Ctx, rep: &mut Report, name: &str, cases: &[SpCase], index_base: u64) -> u64 {
+    let dgs: Vec<Dg> = if ctx.quick() { vec![Dg::NoPipeline, Dg::Pipe(1)] } else { ALL_DGS.to_vec() };
+    let per = (ALL_CFGS.len() * dgs.len()) as u64;
+    let total = cases.len() as u64 * per;
+    let quick = ctx.quick();
+    let pr = run_par(ctx, total, 64, |idx, acc| {
+        acc.cur_index = index_base + idx;
+        let c = &cases[(idx / per) as usize];
+        let k = (idx % per) as usize;
+        let cfg = ALL_CFGS[k / dgs.len()];
+        let dg = dgs[k % dgs.len()];
+        // end-to-end through rssl::compile: always in the thorough tier, for the pipeline mode in the quick tier
+        let e2e = !quick || dg != Dg::NoPipeline;
+        match check_history(&c.hist, cfg, dg, acc, Opt { prefix: None, e2e, spell: Some(&c.sps), reject_ok: c.reject_ok }) {
+            Checked::Live(keys) => {
+                acc.count(&format!("{}_allocated_as_their_letters", name));
+                if let Some(k) = keys.last() {
+                    acc.outcome(&(cfg, dg, k));
+                }
+            }
+            Checked::Rejected => acc.count(&format!("{}_rejected_by_type_checker", name)),
+            Checked::Violated => {}
+        }
+    });
+    rep.absorb(name, pr);
+    rep.cov(&format!("{}_sources", name), Json::Int(cases.len() as i64));
+    total
+}
+
+/// The spelled spaces. Returns the number of case indices used.
+fn spelled_spaces(ctx: &Ctx, rep: &mut Report) -> u64 {
+    let all_kinds: Vec<u16> = (0..KINDS.len() as u16).collect();
+    // class representatives + one read-write kind (register letter u)
+    let rep_kinds: Vec<u16> = all_kinds.iter().copied().filter(|k| KINDS[*k as usize].class_rep || KINDS[*k as usize].name == "RWTexture2D").collect();
+    let obj_kinds: Vec<u16> = all_kinds.iter().copied().filter(|k| KINDS[*k as usize].form == Form::Object).collect();
+    let rep_obj_kinds: Vec<u16> = obj_kinds.iter().copied().filter(|k| KINDS[*k as usize].class_rep).collect();
+    let none2 = [0u16, 2u16]; // no array, [2]
+    let none = [0u16];
+    let no_attrs: Vec<Vec<Attr>> = vec![vec![]];
+    let space_only = [Reg::None, Reg::Space];
+    let mut base = 0u64;
+
+    // S1: one declaration, every way of writing its group / a language binding index
+    let mut cases = Vec::new();
+    let seqs2 = attr_seqs(2);
+    if ctx.quick() {
+        single_cases(&rep_kinds, &none2, &seqs2, false, &mut cases);
+    } else {
+        single_cases(&all_kinds, &none2, &seqs2, false, &mut cases);
+        single_cases(&all_kinds, &none2, &seqs2, true, &mut cases);
+        let seqs3: Vec<Vec<Attr>> = attr_seqs(3).into_iter().filter(|s| s.len() == 3).collect();
+        single_cases(&rep_kinds, &none, &seqs3, false, &mut cases);
+    }
+    base += run_spelled(ctx, rep, "spelled_single_declarations", &cases, base);
+
+    // S2: several declarators in one statement
+    let mut cases = Vec::new();
+    if ctx.quick() {
+        statement_cases(&rep_obj_kinds, 2, &none2, &REGS, &no_attrs, false, &mut cases);
+        statement_cases(&rep_obj_kinds, 2, &none, &REGS, &[vec![Attr::Group], vec![Attr::Index]], false, &mut cases);
+        statement_cases(&rep_obj_kinds, 3, &none, &space_only, &no_attrs, false, &mut cases);
+    } else {
+        statement_cases(&obj_kinds, 2, &none2, &REGS, &no_attrs, false, &mut cases);
+        statement_cases(&rep_obj_kinds, 2, &none2, &REGS, &[vec![Attr::Group], vec![Attr::Index], vec![Attr::IndexGroup]], false, &mut cases);
+        statement_cases(&rep_obj_kinds, 2, &none, &REGS, &no_attrs, true, &mut cases);
+        statement_cases(&rep_obj_kinds, 3, &none, &REGS, &no_attrs, false, &mut cases);
+        statement_cases(&rep_obj_kinds, 3, &none2, &space_only, &no_attrs, false, &mut cases);
+        statement_cases(&rep_obj_kinds, 4, &none, &space_only, &no_attrs, false, &mut cases);
+    }
+    base += run_spelled(ctx, rep, "spelled_multi_declarator_statements", &cases, base);
+    base
 }
 
 /// probe every letter alone: the alphabet consists of the declarations the type checker accepts
@@ -999,7 +1483,7 @@ fn probe_letters(rep: &mut Report) -> Result<Vec<Letter>, String> {
 
 pub fn run(ctx: &Ctx) -> i32 {
     let mut rep = Report::new("model_checking");
-    rep.rule = "E2: BFS over histories of global declarations with the real type_check + assign_api_bindings as transition function; a state is (allocator maps used_slots/inline_size from hook H4, reference-model counters) per (target configuration, default bind group mode); distinct non-trivial = distinct canonical states".into();
+    rep.rule = "E2: BFS over histories of global declarations with the real type_check + assign_api_bindings as transition function; a state is (allocator maps used_slots/inline_size from hook H4, reference-model counters) per (target configuration, default bind group mode); distinct non-trivial = distinct canonical states. Before the BFS two flat spaces of histories of 1..4 declarations written with every other annotation syntax / as declarators of one statement go through the same oracle (their final states count as outcomes in the same way)".into();
 
     let full = match probe_letters(&mut rep) {
         Ok(f) => f,
@@ -1047,7 +1531,9 @@ pub fn run(ctx: &Ctx) -> i32 {
             });
         }
     }
-    bfs_all(ctx, &mut rep, &mut runs, full_upto, max_depth, e2e_all_depth);
+    // the spelled spaces first: they consist of histories of 1..4 declarations
+    let index_start = spelled_spaces(ctx, &mut rep);
+    bfs_all(ctx, &mut rep, &mut runs, full_upto, max_depth, e2e_all_depth, index_start);
 
     let mut per_config: Vec<Json> = Vec::new();
     let (mut states, mut transitions, mut merged, mut multi, mut maxd) = (0u64, 0u64, 0u64, 0u64, 0usize);
@@ -1092,6 +1578,24 @@ pub fn run(ctx: &Ctx) -> i32 {
     for (i, h) in [vec![2 * 16 + 2 * 4, 8 * 16], vec![4 * 16 + 2, 5 * 16 + 2, 8 * 16 + 3 * 4 + 2], vec![20 * 16 + 3, 21 * 16, 24 * 16, 6 * 16 + 3 * 4]].iter().enumerate() {
         rep.acc.samples.push((i as u64, obj(vec![("space", "bfs-history".into()), ("history", hist_str(h).into()), ("source", render(h, Dg::Pipe(1)).into())])));
     }
+    {
+        let tex = kind_ix("Texture2D");
+        let raw = kind_ix("RWByteAddressBuffer");
+        let cb = kind_ix("cbuffer");
+        let spelled: Vec<(Vec<Letter>, Vec<Sp>)> = vec![
+            (vec![mk_letter(tex, 2, 3)], vec![Sp { attrs: vec![Attr::Group, Attr::Index], reg: Reg::None, joined: false }]),
+            (vec![mk_letter(cb, 0, 1)], vec![Sp { attrs: vec![Attr::Index], reg: Reg::SlotSpace, joined: false }]),
+            (
+                vec![mk_letter(raw, 0, 2), mk_letter(raw, 0, 0), mk_letter(raw, 2, 0)],
+                vec![Sp { attrs: vec![], reg: Reg::SlotSpace, joined: false }, Sp { attrs: vec![], reg: Reg::None, joined: true }, Sp { attrs: vec![], reg: Reg::Slot, joined: true }],
+            ),
+        ];
+        for (i, (h, p)) in spelled.iter().enumerate() {
+            if spelling_ok(h, p).is_ok() {
+                rep.acc.samples.push((100 + i as u64, obj(vec![("space", "spelled".into()), ("history", hist_str(h).into()), ("source", render_sp(h, Some(p), Dg::Pipe(1)).into())])));
+            }
+        }
+    }
     rep.assumptions = vec![
         "the BFS key contains the complete state assign_api_bindings carries between declarations (used_slots, inline_size; hook H4) plus the reference-model state; process_definition reads nothing else besides the current declaration, the constant parameters and the default group, so merged states have identical futures".into(),
         "alphabet = every declarable bindable kind of ir::ObjectType (20: the *Mips* kinds have no spelling; TriangleStream, RayQuery, RayDesc are not resources) + cbuffer block + static samplers + plain/static/groupshared float, x array {none,1,2,3} x group {default,0,1,2}; letters the type checker rejects when declared alone are listed in letters_rejected_by_type_checker and left out".into(),
@@ -1101,6 +1605,9 @@ pub fn run(ctx: &Ctx) -> i32 {
         "the four AssignBindingsParams configurations are transcribed from src/compile.rs; the end-to-end cross-check compares the hook trace inside rssl::compile with the trace of the direct call, so a drift of the transcription is reported as alloc|metadata-disagrees|hook-trace".into(),
         "end-to-end: histories for which rssl::compile returns an error or an exporter panics are counted (e2e_not_crosschecked|...) and not compared; exporter crashes belong to C08".into(),
         "default group: no-pipeline mode (0 by definition) and a compute pipeline with DefaultBindGroup = 0, 1, 2".into(),
+        "spelled spaces: attributes {[[rssl::bind_group(G)]], [[vk::binding(I)]], [[vk::binding(I, G)]]} in sequences of up to 2 (thorough 3) in every order, register annotations {none, register(spaceG), register(xI), register(xI, spaceG)} with the register letter of the kind, 1..3 (thorough 4) declarators per statement; only consistent spellings (every annotation of a declaration that names a group names the group of its letter, none names one for a letter without explicit group), so no priority between conflicting annotations is assumed; single-bracket attributes, repeated register annotations on one declarator and conflicting groups are outside the explored space".into(),
+        "the language binding index I (= 5 + position) must not influence api slots: the property hands out ranges from zero in declaration order and assign_api_bindings documents that api slots are independent of language registers".into(),
+        "spelled single declarations of static samplers and non-resource globals that the type checker rejects (binding index on a static sampler, register() on a numeric type) are counted (spelling_rejected|...) and skipped; a rejection of a spelled object declaration / cbuffer block / multi-declarator statement is outside the property's domain and counted (spelled_history_rejected(not compared)|...)".into(),
     ];
     finish(ctx, rep)
 }
@@ -1119,6 +1626,7 @@ pub fn replay(ctx: &Ctx, body: &str) -> i32 {
     let mut dg = None;
     let mut e2e = false;
     let mut hist = Vec::new();
+    let mut sps: Vec<Sp> = Vec::new();
     for line in lines {
         if let Some(v) = line.strip_prefix("config: ") {
             cfg = Cfg::from_name(v.trim());
@@ -1134,8 +1642,23 @@ pub fn replay(ctx: &Ctx, body: &str) -> i32 {
                     return 2;
                 }
             }
+        } else if let Some(v) = line.strip_prefix("spell: ") {
+            match parse_sp(v) {
+                Some(sp) => sps.push(sp),
+                None => {
+                    eprintln!("machinery error: unknown spelling {:?}", v);
+                    return 2;
+                }
+            }
         } else if line.starts_with("source:") {
             break;
+        }
+    }
+    let spell: Option<&[Sp]> = if sps.is_empty() { None } else { Some(&sps) };
+    if let Some(sps) = spell {
+        if let Err(e) = spelling_ok(&hist, sps) {
+            eprintln!("machinery error: spelling does not fit the letters: {}", e);
+            return 2;
         }
     }
     let (cfg, dg) = match (cfg, dg) {
@@ -1147,8 +1670,9 @@ pub fn replay(ctx: &Ctx, body: &str) -> i32 {
     };
     let mut acc = Acc::default();
     let mut acc2 = Acc::default();
-    let _ = check_history(&hist, cfg, dg, &mut acc, None, e2e);
-    let _ = check_history(&hist, cfg, dg, &mut acc2, None, e2e);
+    let opt = Opt { prefix: None, e2e, spell, reject_ok: false };
+    let _ = check_history(&hist, cfg, dg, &mut acc, opt);
+    let _ = check_history(&hist, cfg, dg, &mut acc2, opt);
     if acc.viol.keys().collect::<Vec<_>>() != acc2.viol.keys().collect::<Vec<_>>() {
         eprintln!("machinery error: replay is not deterministic");
         return 2;
